@@ -25,6 +25,9 @@ impl Content {
         let mut data = vec![];
         for part in self.parts.iter() {
             data.extend_from_slice(&t!(part.data(resolve)));
+            // the streams of a /Contents array are divided at token boundaries: the last token
+            // of one part and the first of the next must not run together
+            data.push(b'\n');
         }
         parse_ops(&data, resolve)
     }
